@@ -40,11 +40,8 @@ from vlib import Check, batch  # noqa: E402
 
 ck = Check('C19')
 ck.regen()
-DEV = os.environ.get('W9_DEV') == '1'   # TODO remove
-if not DEV:
-    ck.lean(['LbzVerif.Props.C19'])
-if not DEV:
-  ck.require_theorems(['LbzVerif.Props.C19.' + n for n in (
+ck.lean(['LbzVerif.Props.C19'])
+ck.require_theorems(['LbzVerif.Props.C19.' + n for n in (
     'xread_spec', 'sniff_iff', 'sniff_frag_irrelevant', 'copy_identity',
     'copy_terminates', 'copy_progress', 'usr2_once', 'usr2_never_twice',
     'usr2_after_output', 'header_case')])
